@@ -1,6 +1,7 @@
 package c07
 
 import (
+	"encoding/base64"
 	"fmt"
 	"os"
 	"path/filepath"
@@ -324,6 +325,9 @@ func TestProp(t *testing.T) {
 				}
 			}
 			history = append(history, desc)
+			stepOld, stepOldErr := os.ReadFile(dpath)
+			stepHadOld := stepOldErr == nil
+			stepSpell := ""
 			c.Rep.Eval()
 			if (stale && s > 0) || corrupt != "" {
 				old, _ := os.ReadFile(dpath)
@@ -338,6 +342,7 @@ func TestProp(t *testing.T) {
 				res = gorun.RunGoderive(dir, spell)
 			}
 			history[len(history)-1] += " [goderive " + spell + "]"
+			stepSpell = spell
 			if res.Err != nil || res.TimedOut {
 				c.Rep.Inconcl("goderive did not run")
 				return
@@ -356,7 +361,9 @@ func TestProp(t *testing.T) {
 				for k, v := range files {
 					old[k] = v
 				}
-				c.Fail(rt, sig, msg+"\nhistory:\n  "+strings.Join(history, "\n  "), old, map[string]any{"history": history})
+				oldDerived, hadOld := stepOld, stepHadOld
+				c.Fail(rt, sig, msg+"\nhistory:\n  "+strings.Join(history, "\n  "), old, map[string]any{"history": history,
+					"spelling": stepSpell, "old_derived_b64": base64.StdEncoding.EncodeToString(oldDerived), "had_old_derived": hadOld})
 			}
 			if res.Exit != 0 {
 				cls := pkit.FirstLines(res.Stderr, 1)
@@ -413,5 +420,46 @@ func reNumDot(s string) string {
 func TestProbes(t *testing.T) { pkit.Load(prop).RunProbes(t, nil) }
 
 func TestReplay(t *testing.T) {
-	t.Skip("C07 replays: the history is listed in replay.json; re-run with the VERIF_SEED of the failing run")
+	dir := pkit.ReplayDir()
+	if dir == "" {
+		t.Skip("no replay dir")
+	}
+	meta, files, err := pkit.ReadReplay(dir)
+	if err != nil {
+		t.Fatal(err)
+	}
+	c := pkit.Load(prop)
+	delete(files, "p/"+gorun.DerivedFile)
+	want, wantExists, wexit, _ := scratchOutput(c, files)
+	if wexit != 0 {
+		t.Fatalf("the sources are rejected from scratch")
+	}
+	cd := c.CaseDir()
+	defer os.RemoveAll(cd)
+	gorun.WriteFiles(cd, files)
+	if had, _ := meta["had_old_derived"].(bool); had {
+		b64, _ := meta["old_derived_b64"].(string)
+		old, _ := base64.StdEncoding.DecodeString(b64)
+		os.WriteFile(filepath.Join(cd, "p", gorun.DerivedFile), old, 0o644)
+	}
+	spell, _ := meta["spelling"].(string)
+	var res gorun.Result
+	switch spell {
+	case "dot":
+		res = gorun.RunGoderive(filepath.Join(cd, "p"), ".")
+	case "":
+		res = gorun.RunGoderive(cd, "./p")
+	default:
+		res = gorun.RunGoderive(cd, spell)
+	}
+	if res.Exit != 0 {
+		t.Fatalf("still fails: goderive exits %d: %s", res.Exit, res.Stderr)
+	}
+	got, err := os.ReadFile(filepath.Join(cd, "p", gorun.DerivedFile))
+	if (err == nil) != wantExists || (wantExists && string(got) != string(want)) {
+		t.Fatalf("still fails: derived.gen.go after one run differs from the from-scratch output")
+	}
+	if cr, err := gorun.TypeCheck(cd, true, "./p"); err == nil && len(cr.Errors) > 0 && wantExists {
+		t.Fatalf("still fails: the package does not type-check: %v", cr.Errors)
+	}
 }
